@@ -155,19 +155,36 @@ func (h *Handler) Handle(cx *layer4.Connection, next layer4.Handler) error {
 		return next.Handle(cx)
 	}
 
-	if _, err := conn.ProxyHeader(); err != nil {
+	hdr, err := conn.ProxyHeader()
+	if err != nil {
 		return fmt.Errorf("parsing the PROXY header: %v", err)
 	}
+	var wrapped net.Conn = conn
+	if v1, ok := hdr.(*proxyprotocol.HeaderV1); ok && v1.SrcIP == nil && v1.DestIP == nil {
+		// "PROXY UNKNOWN" declares no addresses: the real endpoints stay in effect
+		// (the header would otherwise report the zero address ":0")
+		wrapped = realAddrConn{Conn: conn, remote: cx.RemoteAddr(), local: cx.LocalAddr()}
+	}
 	h.logger.Debug("received the PROXY header",
-		zap.String("remote", conn.RemoteAddr().String()),
-		zap.String("local", conn.LocalAddr().String()),
+		zap.String("remote", wrapped.RemoteAddr().String()),
+		zap.String("local", wrapped.LocalAddr().String()),
 	)
 
 	// Set conn as a custom variable on cx.
-	cx.SetVar("l4.proxy_protocol.conn", conn)
+	cx.SetVar("l4.proxy_protocol.conn", wrapped)
 
-	return next.Handle(cx.Wrap(conn))
+	return next.Handle(cx.Wrap(wrapped))
 }
+
+// realAddrConn reads through a PROXY protocol connection whose header carried no
+// addresses and reports the addresses of the underlying connection.
+type realAddrConn struct {
+	net.Conn
+	remote, local net.Addr
+}
+
+func (c realAddrConn) RemoteAddr() net.Addr { return c.remote }
+func (c realAddrConn) LocalAddr() net.Addr  { return c.local }
 
 // UnmarshalCaddyfile sets up the Handler from Caddyfile tokens. Syntax:
 //
